@@ -35,10 +35,13 @@ class ChainFinder(object):
             while 1:
                 h = self.parent_lookup.get(h)
                 if h is None:
+                    # the last element of path is a missing parent
+                    walked = len(path) - 1
                     break
                 new_hashes.discard(h)
                 preceding_path = self.trees_from_bottom.get(h)
                 if preceding_path:
+                    walked = len(path)
                     del self.trees_from_bottom[h]
                     path.extend(preceding_path)
                     # we extended an existing path. Fix up descendents_by_top
@@ -53,23 +56,27 @@ class ChainFinder(object):
             #    # this is a lone element... don't bother trying to extend
             #    continue
 
-            # now, perform extensions on any trees that start below here
+            # now, perform extensions on any trees that start below here.
+            # Trees can be waiting on any of the nodes just walked, not only on
+            # the bottom: a parent that shows up in the same batch as another
+            # of its descendents lands in the middle of the path.
 
             bottom_h, top_h = path[0], path[-1]
 
             top_descendents = self.descendents_by_top.setdefault(top_h, set())
-            bottom_descendents = self.descendents_by_top.get(bottom_h)
-            if bottom_descendents:
-                for descendent in bottom_descendents:
+            for idx in range(walked):
+                node_descendents = self.descendents_by_top.get(path[idx])
+                if not node_descendents:
+                    continue
+                for descendent in node_descendents:
                     prior_path = self.trees_from_bottom[descendent]
-                    prior_path.extend(path[1:])
-                    if path[0] in self.trees_from_bottom:
-                        del self.trees_from_bottom[path[0]]
-                    else:
-                        pass  # TODO: improve this
-                del self.descendents_by_top[bottom_h]
-                top_descendents.update(bottom_descendents)
-            else:
+                    prior_path.extend(path[idx + 1 :])
+                del self.descendents_by_top[path[idx]]
+                top_descendents.update(node_descendents)
+                if idx == 0:
+                    # bottom_h has descendents, so it's no longer a bottom
+                    del self.trees_from_bottom[bottom_h]
+            if bottom_h in self.trees_from_bottom:
                 top_descendents.add(bottom_h)
 
     def all_chains_ending_at(self, h: Any) -> Generator[list[Any], None, None]:
